@@ -143,7 +143,7 @@ def gen_tree(rng, schema, density=0.7, maxinst=5):
 
 # ----------------------------------------------------------------------------------------------------------------------
 # AST.  ('lit', s) ('num', mant, scale) ('fn', name, [args]) ('bin', op, a, b) ('neg', a) ('path', start, [steps]) ('filter', e, [preds])
-# start = 'R' | 'C' | ('E', expr);  step = (axis, test, [preds], dslash);  test = ('n', pfx|None, name) | ('a',) | ('m', pfx) | ('o',) | ('t',)
+# start = 'R' | 'C' | ('E', expr);  step = (axis, test, [preds], dslash);  test = ('n', pfx|None, name) | ('a',) | ('m', pfx) | ('o',) | ('t',) | ('c',)
 AXES = ["child", "descendant", "parent", "ancestor", "following-sibling", "preceding-sibling", "following", "preceding", "attribute", "self",
         "descendant-or-self", "ancestor-or-self"]
 # the attribute axis is kept out of the generated streams: the data carries no annotations, and libyang's own bookkeeping metadata is visible there (F262)
@@ -170,6 +170,7 @@ def render_test(t):
     if t[0] == "a": return "*"
     if t[0] == "m": return t[1] + ":*"
     if t[0] == "o": return "node()"
+    if t[0] == "c": return "comment()"
     return "text()"
 
 
@@ -192,6 +193,7 @@ def render(e, rng=None, ctxprec=0):
     ab = (rng.random() < 0.7) if rng else True
     if k == "lit": return render_lit(e[1])
     if k == "num": return render_num(e[1], e[2])
+    if k == "fn" and e[1] == "$": return "$" + e[2][0][1]          # variable reference: ('fn', '$', [('lit', name)]), prefix form `F $ 1 L <hex name>`
     if k == "fn": return e[1] + "(" + ", ".join(render(a, rng, 0) for a in e[2]) + ")"
     if k == "neg":
         a = render(e[1], rng, 0)
